@@ -138,12 +138,13 @@ Section WithRules.
     end.
   Definition aggregate_period (r : option resolution) (origin : Z) (prem : bool) (cells : list cell)
     : result (list cell) :=
-    match r with
-    | None => Ok cells
-    | Some r =>
+    match r, cells with
+    | None, _ => Ok cells
+    | Some _, [] => Ok []       (* `if period_resolution is None or not triangle.cells: return triangle` *)
+    | Some r, _ :: _ =>
         let sorted := sort_coords cells in
         match sorted with
-        | [] => Err IndexError
+        | [] => Err IndexError   (* unreachable: the sort permutes *)
         | c0 :: _ =>
             let last := zmax_list (ps c0) (map ps sorted) in
             let fuel := walk_fuel origin (ps c0) last in
@@ -214,7 +215,7 @@ Section WithRules.
     | None => Ok kept
     | Some r =>
         match kept with
-        | [] => Err IndexError
+        | [] => Ok []            (* a slice emptied by the evaluation grid contributes nothing *)
         | _ :: _ =>
             let sorted := sort_coords kept in
             if existsb (straddles r (period_origin a)) sorted then Err TriangleError
